@@ -15,6 +15,8 @@ import (
 	"fmt"
 	"net"
 	"net/netip"
+	"sync"
+	"sync/atomic"
 	"testing"
 	"time"
 
@@ -426,4 +428,70 @@ func c01AuthOnly(step int, conn *kit.MemConn, cl service.CipherList, refAuth boo
 		return kit.Violation("auth:misattributed", "step %d: (no remote address) attributed to %q, allowed %v", step, id, keysOf(allowed))
 	}
 	return nil
+}
+
+// ---- concurrent lookups under one key from several client addresses --------------------------------
+// Clients that share an access key connect from different IP addresses at the same time (a phone and a laptop):
+// every one of them authenticates, whatever bookkeeping of "last client of this key" the list does meanwhile.
+
+type C01Conc struct {
+	Keys    int   `json:"keys"`
+	Pos     int   `json:"pos"` // position of the shared key in the list
+	IPs     int   `json:"ips"`
+	Workers int   `json:"workers"`
+	PerW    int   `json:"per_worker"`
+	Seed    int64 `json:"seed"`
+}
+
+func genC01Conc(t *rapid.T) C01Conc {
+	c := C01Conc{Keys: rapid.SampledFrom([]int{3, 50, 800, 3000}).Draw(t, "keys"), IPs: rapid.IntRange(2, 4).Draw(t, "ips"), Workers: rapid.IntRange(2, 12).Draw(t, "workers"),
+		PerW: rapid.IntRange(100, 1500).Draw(t, "perw"), Seed: rapid.Int64Range(1, 1<<40).Draw(t, "seed")}
+	c.Pos = rapid.IntRange(0, c.Keys-1).Draw(t, "pos")
+	return c
+}
+
+func runC01Conc(c C01Conc, info *kit.Info) *kit.Finding {
+	keys := make([]kit.KeySpec, c.Keys)
+	for i := range keys {
+		keys[i] = kit.KeySpec{ID: fmt.Sprintf("id-%d", i), Cipher: kit.AllCiphers[i%len(kit.AllCiphers)], Secret: fmt.Sprintf("conc-secret-%d", i)}
+	}
+	shared := keys[c.Pos]
+	key := shared.Key()
+	auth := service.NewShadowsocksStreamAuthenticator(kit.NewCipherList(keys), nil, nil, nil)
+	var bad atomic.Pointer[kit.Finding]
+	var wg sync.WaitGroup
+	start := make(chan struct{})
+	for w := 0; w < c.Workers; w++ {
+		wg.Add(1)
+		go func(w int) {
+			defer wg.Done()
+			defer func() {
+				if r := recover(); r != nil {
+					bad.CompareAndSwap(nil, kit.Violation("auth:panic", "a lookup under a configured key panicked while %d workers from %d addresses used that key concurrently: %v", c.Workers, c.IPs, r))
+				}
+			}()
+			ip := net.IPv4(203, 0, 113, byte(1+w%c.IPs))
+			<-start
+			for i := 0; i < c.PerW && bad.Load() == nil; i++ {
+				wire := kit.EncodeStream(key, kit.DetBytes(c.Seed+int64(w)*1_000_003+int64(i), key.SaltSize()), append(kit.SocksAddrFor(c01Target, false), "x"...), nil)
+				id, _, err := auth(kit.NewMemConn(wire, &net.TCPAddr{IP: ip, Port: 1000 + i%60000}))
+				if err != nil || id != shared.ID {
+					bad.CompareAndSwap(nil, kit.Violation("auth:incomplete", "worker %d (client %v), connection %d: a stream valid under configured key %s was answered with id %q, error %v, while %d workers from %d addresses used that key concurrently (%d keys, the key at position %d)", w, ip, i, shared.ID, id, err, c.Workers, c.IPs, c.Keys, c.Pos))
+					return
+				}
+			}
+		}(w)
+	}
+	close(start)
+	wg.Wait()
+	if f := bad.Load(); f != nil {
+		return f
+	}
+	info.NonTrivial, info.Steps = true, c.Workers*c.PerW
+	return nil
+}
+
+func TestC01_Concurrent(t *testing.T) {
+	p := kit.Prop[C01Conc]{ID: "C01", Name: "Concurrent", Quick: 24, Thorough: 2000, Gen: genC01Conc, Run: runC01Conc}
+	p.Execute(t)
 }
